@@ -23,6 +23,11 @@ Stream ids.  cfg.ids = k in {1, 2} shrinks the id space of every pool connection
 wrap at once and the EXECUTE, the PREPARE and the re-sent EXECUTE travel under stream id 0 in some behaviours; the stream
 id of every frame and whether its handler is still registered are then part of the projection.  k = 0 leaves the driver's
 default id space alone (ids not compared).
+
+Speculative execution.  cfg.spec = 1: the prepared statement is idempotent and the profile carries a
+ConstantSpeculativeExecutionPolicy(0.5, 1): the first timer of the future is _on_speculative_execute; the schedule fires
+it (SpecExec) while the first EXECUTE is unanswered, so that two attempts are in flight on different nodes and
+ResponseFuture._current_host / _connection name the second node when the first one answers UNPREPARED.
 """
 import copy
 from collections import deque
@@ -32,11 +37,12 @@ from harness import wire
 
 from cassandra.cluster import ExecutionProfile, EXEC_PROFILE_DEFAULT, _NOT_SET
 from cassandra.connection import ConnectionException
-from cassandra.policies import RoundRobinPolicy, FallthroughRetryPolicy, ConvictionPolicy
+from cassandra.policies import (RoundRobinPolicy, FallthroughRetryPolicy, ConvictionPolicy,
+                                ConstantSpeculativeExecutionPolicy)
 from cassandra.protocol import ResultMessage, ErrorMessage
 from cassandra.query import tuple_factory
 
-VARS = ("plan", "sent", "srv", "queue", "final", "pool", "timer", "rid")
+VARS = ("plan", "sent", "srv", "queue", "final", "pool", "timer", "rid", "lc")
 QUERY = "SELECT a FROM t WHERE k=? /* %s */"
 OTHER_ID = b"id-of-something-else"
 
@@ -59,11 +65,11 @@ def host_name(address):
 
 
 class Env:
-    """One simulated cluster per (nhosts, pv, cks, ids); reused by behaviours that leave it intact."""
+    """One simulated cluster per (nhosts, pv, cks, ids, spec); reused by behaviours that leave it intact."""
     cache = {}
 
-    def __init__(self, nhosts, pv, cks, ids=0):
-        self.nhosts, self.pv, self.cks, self.ids = nhosts, pv, cks, ids
+    def __init__(self, nhosts, pv, cks, ids=0, spec=0):
+        self.nhosts, self.pv, self.cks, self.ids, self.spec = nhosts, pv, cks, ids, spec
         self.world = SimWorld()
         self.nodes = {}
         for i in range(1, nhosts + 1):
@@ -76,6 +82,8 @@ class Env:
         self.preparing = None
         profile = ExecutionProfile(load_balancing_policy=PlanInOrder(), retry_policy=FallthroughRetryPolicy(),
                                    row_factory=tuple_factory, request_timeout=10.0)
+        if spec:
+            profile.speculative_execution_policy = ConstantSpeculativeExecutionPolicy(0.5, spec)
         self.cluster = make_cluster(self.world, ["10.0.0.1"], protocol_version=pv, inline=True,
                                     execution_profiles={EXEC_PROFILE_DEFAULT: profile},
                                     conviction_policy_factory=NeverConvict, prepare_on_all_hosts=False,
@@ -87,13 +95,13 @@ class Env:
         self.dirty = False
 
     @classmethod
-    def get(cls, nhosts, pv, cks, ids=0):
-        key = (nhosts, pv, cks, ids)
+    def get(cls, nhosts, pv, cks, ids=0, spec=0):
+        key = (nhosts, pv, cks, ids, spec)
         env = cls.cache.get(key)
         if env is None or env.dirty or env.cluster.is_shutdown:
             if env is not None:
                 env.close()
-            env = cls.cache[key] = Env(nhosts, pv, cks, ids)
+            env = cls.cache[key] = Env(nhosts, pv, cks, ids, spec)
         # the simulation substrate has one current world
         SimWorld.current = env.world
         from harness.sim import simconn, simcluster
@@ -169,7 +177,8 @@ class ReprepareHarness:
     def __init__(self, nhosts, cfg):
         self.cfgv = dict(cfg)
         self.ids = cfg.get("ids", 0)
-        self.env = Env.get(nhosts, cfg["pv"], cfg["cks"], self.ids)
+        self.spec = cfg.get("spec", 0)
+        self.env = Env.get(nhosts, cfg["pv"], cfg["cks"], self.ids, self.spec)
         env = self.env
         self.stmt = env.statement(cfg["sks"])
         self.qid = env.qid(cfg["sks"])
@@ -211,7 +220,9 @@ class ReprepareHarness:
         return cands[0]
 
     def act_Start(self, h, resp):
-        self.fut = self.env.session.execute_async(self.stmt.bind((1,)))
+        bound = self.stmt.bind((1,))
+        bound.is_idempotent = bool(self.spec)             # only idempotent statements get speculative executions
+        self.fut = self.env.session.execute_async(bound)
 
     def act_AnsUnprepared(self, h, resp):
         node, p = self._pending(h, "EXECUTE")
@@ -245,11 +256,22 @@ class ReprepareHarness:
     def act_RunAfter(self, h, resp):
         self.env.cluster.executor.run(self._task("_execute_after_prepare"))
 
+    def _timer_kind(self):
+        t = self.fut._timer if self.fut is not None else None
+        if t is None or t.canceled or getattr(t, "_fired", False):
+            return "off"
+        name = getattr(t.callback, "__name__", None) or getattr(getattr(t.callback, "func", None), "__name__", "?")
+        return {"_on_speculative_execute": "spec", "_on_timeout": "armed"}.get(name, "?" + str(name))
+
     def act_Timeout(self, h, resp):
-        t = self.fut._timer
-        if t is None or t.canceled:
-            raise AssertionError("client timeout is not armed")
-        self.env.world.fire(t, advance=False)
+        if self._timer_kind() != "armed":
+            raise AssertionError("client timeout is not armed (%s)" % self._timer_kind())
+        self.env.world.fire(self.fut._timer, advance=False)
+
+    def act_SpecExec(self, h, resp):
+        if self._timer_kind() != "spec":
+            raise AssertionError("no speculative execution is scheduled (%s)" % self._timer_kind())
+        self.env.world.fire(self.fut._timer, advance=False)
 
     # ------------------------------------------------------------ projection
     def _sent_entry(self, h, req):
@@ -297,7 +319,7 @@ class ReprepareHarness:
                 pool[h] = "ok"
         if fut is None:
             return {"plan": tuple(sorted(env.hosts)), "sent": sent, "srv": frozenset(srv), "queue": tuple(queue),
-                    "final": "unset", "pool": pool, "timer": "none", "rid": -1}
+                    "final": "unset", "pool": pool, "timer": "none", "rid": -1, "lc": "-"}
         exc, res = fut._final_exception, fut._final_result
         if exc is not None and res is not _NOT_SET:
             final = "both:%s+result" % type(exc).__name__
@@ -311,18 +333,18 @@ class ReprepareHarness:
             plan = tuple(host_name(h.endpoint.address) for h in copy.copy(fut.query_plan))
         except TypeError:
             plan = ("?",)
-        t = fut._timer
-        timer = "armed" if (t is not None and not t.canceled and not getattr(t, "_fired", False)) else "off"
+        timer = self._timer_kind()
         rid = fut._req_id if (self.ids and fut._req_id is not None) else -1
+        lc = host_name(fut._connection.endpoint.address) if fut._connection is not None else "-"
         return {"plan": plan, "sent": sent, "srv": frozenset(srv), "queue": tuple(queue), "final": final,
-                "pool": pool, "timer": timer, "rid": rid}
+                "pool": pool, "timer": timer, "rid": rid, "lc": lc}
 
 
 def spec_view(state):
     return {"plan": tuple(state["plan"]), "sent": tuple(dict(m) for m in state["sent"]),
             "srv": frozenset((r["h"], r["kind"], r["n"], r["sid"], r["live"]) for r in state["srv"]),
             "queue": tuple(dict(t) for t in state["queue"]), "final": state["final"], "pool": dict(state["pool"]),
-            "timer": state["timer"], "rid": state["rid"]}
+            "timer": state["timer"], "rid": state["rid"], "lc": state["lc"]}
 
 
 def diff(spec, real):
@@ -384,14 +406,16 @@ def _post(p):
             "srv": sorted(({"h": h, "kind": k, "n": n, "sid": sid, "live": live} for h, k, n, sid, live in p["srv"]),
                           key=lambda r: r["n"]),
             "queue": [dict(t) for t in p["queue"]], "final": p["final"], "pool": dict(p["pool"]), "timer": p["timer"],
-            "rid": p["rid"]}
+            "rid": p["rid"], "lc": p["lc"]}
 
 
 def record(rng, nhosts=3, max_unprep=3, cfg=None, bias=None):
     """Drive the real objects with random enabled environment choices; return (cfg, events)."""
     if cfg is None:
         cfg = {"pv": rng.choice([4, 5]), "sks": rng.choice(["none", "ks"]), "cks": rng.choice(["none", "ks", "ks2"]),
-               "ids": rng.choice([0, 1, 1, 2])}
+               "ids": rng.choice([0, 1, 1, 2]), "spec": 0}
+        if rng.random() < 0.4:                    # the configurations explored with a speculative execution
+            cfg.update(cks="ks", ids=rng.choice([0, 1]), spec=1)
     h = ReprepareHarness(nhosts, cfg)
     events = []
     unprep = 0
@@ -403,18 +427,21 @@ def record(rng, nhosts=3, max_unprep=3, cfg=None, bias=None):
                 ops.append(("Start", "-", "-"))
             else:
                 failed = fut._final_exception is not None
+                chain = any(p.req.get("op") == "PREPARE" for n in env.nodes.values() for p in n.pending) or \
+                    any(t.label in ("_reprepare", "_execute_after_prepare") for t in env.cluster.executor.queue)
+                if h._timer_kind() == "spec" and not failed and fut._final_result is _NOT_SET:
+                    ops += [("SpecExec", "-", "-")] * 3
                 for hn, node in env.nodes.items():
                     for p in node.pending:
                         if p.req.get("op") == "EXECUTE" and not failed:
                             ops += [("AnsRows", hn, "-")] * 2
-                            if unprep < max_unprep:
+                            if unprep < max_unprep and not chain:          # one re-preparation at a time (spec's scope)
                                 ops += [("AnsUnprepared", hn, "-")] * 4
                         elif p.req.get("op") == "PREPARE":
                             ops += [("AnsPrepare", hn, "same")] * 4 + [("AnsPrepare", hn, "diff"), ("AnsPrepare", hn, "error")]
                             if p.frame.stream in p.conn._requests:          # its handler is still registered
                                 ops.append(("ConnLost", hn, "-"))
-                            t = fut._timer
-                            if not failed and fut._final_result is _NOT_SET and t is not None and not t.canceled:
+                            if not failed and fut._final_result is _NOT_SET and h._timer_kind() == "armed":
                                 ops.append(("Timeout", "-", "-"))
                 tasks = [t.label for t in env.cluster.executor.queue if t.label in ("_reprepare", "_execute_after_prepare")]
                 if tasks:
